@@ -47,6 +47,22 @@ func (r *resendContext) later(msg MessagePlaintext, opaque ...interface{}) {
 	r.messages.m = append(r.messages.m, messageToResend{makeCopy(msg), opaque})
 }
 
+// last remembers msg as the only message that may be retransmitted
+// messages without text (heartbeats, TLV-only messages) are never retransmitted
+func (r *resendContext) last(msg MessagePlaintext) {
+	if r.retransmitting || len(msg) == 0 {
+		return
+	}
+
+	r.messages.Lock()
+	defer r.messages.Unlock()
+
+	for i := range r.messages.m {
+		wipeBytes(r.messages.m[i].m)
+	}
+	r.messages.m = append(make([]messageToResend, 0, 1), messageToResend{makeCopy(msg), nil})
+}
+
 func (r *resendContext) pending() []messageToResend {
 	r.messages.RLock()
 	defer r.messages.RUnlock()
